@@ -458,7 +458,7 @@ func genHygieneMsg() *rapid.Generator[string] {
 	return rapid.OneOf(vlib.GenMsg(), rapid.SampledFrom([]string{"<b>bold", "<b>x</b> tail", "<font color=\"red\">r</font>", "a & b", "<i>line1\nline2</i>", "</b>", "<kbd>k", "&amp;&lt;", "<dim>d\n", "<mark>", "x<br>y",
 		"&#10;x", "a&#27;[31mb", "&NewLine;z", "x\r<b>y", "]\r&", "&#13;", "&#x1b;[0m",
 		// escape sequences other than colour ones, spelled as character references
-		"&#27;[2J", "clear &#27;c screen", "&#x1b;]0;window title&#7;", "x&#27;[1;1Hy", "&#27;[?25l", "&#155;31m", "a&#27;b", "&#27;", "&#27;[", "&#27;[12", "&#8;&#8;&#8;gone", "&Tab;tab"})).
+		"&#27;[2J", "clear &#27;c screen", "&#x1b;]0;window title&#7;", "x&#27;[1;1Hy", "&#27;[?25l", "&#155;31m", "a&#27;b", "&#27;", "&#27;[", "&#27;[12", "&#8;&#8;&#8;gone", "&Tab;tab", "del&#127;here", "&#x7f;", "nul&#0;", "&#31;&#30;"})).
 		Filter(func(s string) bool { return !strings.Contains(s, "\x1b") })
 }
 
